@@ -401,7 +401,7 @@ func report(env Env, p Property, ph Phase, seed uint64, fv *FoundViolation, know
 	// minimise
 	maxTests, maxDur := 3000, 90*time.Second
 	var tester Tester
-	if ph.Race || fv.V.Class == "process-crash" {
+	if fv.V.Class == "data-race" || fv.V.Class == "process-crash" {
 		maxTests, maxDur = 150, 120*time.Second
 		tester = func(raw []byte) bool {
 			if _, err := p.Decode(raw); err != nil {
